@@ -34,6 +34,15 @@ func c15SnappyDecode(dst, src []byte) ([]byte, error) {
 // (type scan + method lookup); the dispatch is replaced by the direct call it ends in
 // for *Message, the codec itself runs from its source.
 func c15EncoderEncode(e *binary.Encoder, val interface{}) error {
+	if f, ok := val.(*Frame); ok { // a slice: element count, then every element through its codec
+		e.WriteUvarint(uint64(len(*f)))
+		for i := range *f {
+			if err := (*f)[i].GetBinaryCodec().EncodeTo(e, reflect.ValueOf((*f)[i])); err != nil {
+				return err
+			}
+		}
+		return nil
+	}
 	m := val.(*Message)
 	return m.GetBinaryCodec().EncodeTo(e, reflect.ValueOf(*m))
 }
@@ -58,7 +67,7 @@ func c15same(x, y []byte) bool {
 // VerifC15Value: the value the disk store keeps for a message is Message.Encode(); what a
 // history query hands back is DecodeMessage of those bytes. Two messages are encoded one
 // after the other (the second one reuses the pooled encoder and its buffer, as every store
-// after the first does) and both values are decoded afterwards, as a query after a restart
+// after the first does; optionally a Frame.Encode, which shares the pool, comes between) and both values are decoded afterwards, as a query after a restart
 // does: each comes back with identical id, channel, payload and ttl, hence identical expiry.
 func VerifC15Value(v *verifrt.T) {
 	// the first message has one shape (2-byte fields, arbitrary bytes and ttl); the second
@@ -71,6 +80,11 @@ func VerifC15Value(v *verifrt.T) {
 		TTL:     v.U32("ttl", 1),
 	}
 	v0 := m0.Encode()
+	// the same pool also serves Frame.Encode (survey replies, peer frames)
+	if v.Bool("frame-between") {
+		fr := Frame{m0}
+		_ = fr.Encode()
+	}
 	v1 := m1.Encode()
 	v.Reach("values-encoded")
 	o0, err0 := DecodeMessage(v0)
